@@ -49,12 +49,14 @@ def build_kernel(spec):
     from inference.gp import SquaredExponential, RationalQuadratic, WhiteNoise, HeteroscedasticNoise, ChangePoint
 
     k = spec["k"]
+    ub = spec.get("ub")          # bounds specified by the user for this component (documented forms)
     if k == "SE":
-        return SquaredExponential()
+        return SquaredExponential(hyperpar_bounds=[tuple(b) for b in ub]) if ub else SquaredExponential()
     if k == "RQ":
-        return RationalQuadratic()
+        return RationalQuadratic(hyperpar_bounds=[tuple(b) for b in ub]) if ub else RationalQuadratic()
     if k == "White":
-        return WhiteNoise()
+        # documented as "a length-2 tuple giving the lower/upper bound"
+        return WhiteNoise(hyperpar_bounds=tuple(ub[0])) if ub else WhiteNoise()
     if k == "Hetero":
         return HeteroscedasticNoise()
     if k == "Sum":
